@@ -63,8 +63,9 @@ def session_run(text: str, F, rng, mode=None):
         if F:
             flags = list(F)
             rng.shuffle(flags)
-            if mode in ("report",):
-                flags.append("report")
+            if mode in ("report",) or rng.random() < 0.4:
+                # (report next to category flags: every pending category is shown, only the given ones are applied)
+                flags.insert(rng.randrange(len(flags) + 1), "report")
             args = ["--inline-snapshot=" + ",".join(flags)]
         else:
             args = rng.choice([[], ["--inline-snapshot=report"], ["--inline-snapshot=short-report"]])
@@ -182,6 +183,7 @@ def compare(ops, srcs, prog, beta, text, exp, obs, driver, F, run_id):
             props = ["C05"]
             if e == norm(srcs[i - 1]):
                 props.append("C04")      # nothing approved for this site, yet it changed
+                props.append("C03")      # ... a snapshot that is not being changed must be preserved
             if {"create", "fix"} <= set(F):
                 props.append("C02")
             if not srcs[i - 1]["def"] and "create" in F:
